@@ -1,6 +1,6 @@
-(* C12 — soundness of the radius checker of Model/MaskFlow.v: a program accepted by [accepts]
-   is non-interfering inside the mask for every admissible interpretation of the library
-   symbols; a program of the shape [Select _ MaskE Img] returns the input outside the mask. *)
+(* C12 — soundness of the dependence checker of Model/MaskFlow.v: a program (shared definitions + main term)
+   accepted by [accepts] is non-interfering inside the mask for every admissible interpretation of the library
+   symbols; a program whose main term ends every path in [Select _ MaskE Img] returns the input outside the mask. *)
 From Coq Require Import ZArith List Bool Lia.
 From Centro Require Import Model.MaskFlow.
 Import ListNotations.
@@ -13,10 +13,13 @@ Hypothesis HImg : P Img.
 Hypothesis HMask : P MaskE.
 Hypothesis HFalse : P FalseC.
 Hypothesis HConst : forall c, P (Const c).
+Hypothesis HRef : forall k, P (Ref k).
 Hypothesis HErode : forall r m, P m -> P (Erode r m).
 Hypothesis HErodeP : forall r m, P m -> P (ErodeP r m).
+Hypothesis HErodeS : forall s m, P m -> P (ErodeS s m).
 Hypothesis HPw : forall f es, Forall P es -> P (Pw f es).
 Hypothesis HLoc : forall r f e, P e -> P (Loc r f e).
+Hypothesis HLocS : forall s f e, P e -> P (LocS s f e).
 Hypothesis HGlob : forall f es, Forall P es -> P (Glob f es).
 Hypothesis HSelect : forall e1 m e2, P e1 -> P m -> P e2 -> P (Select e1 m e2).
 Hypothesis HMConv : forall k e m, P e -> P m -> P (MConv k e m).
@@ -24,11 +27,13 @@ Fixpoint expr_ind2 (e : expr) : P e :=
   let go := fix go (l : list expr) : Forall P l :=
     match l with [] => Forall_nil P | x :: t => Forall_cons x (expr_ind2 x) (go t) end in
   match e with
-  | Img => HImg | MaskE => HMask | FalseC => HFalse | Const c => HConst c
+  | Img => HImg | MaskE => HMask | FalseC => HFalse | Const c => HConst c | Ref k => HRef k
   | Erode r m => HErode r m (expr_ind2 m)
   | ErodeP r m => HErodeP r m (expr_ind2 m)
+  | ErodeS s m => HErodeS s m (expr_ind2 m)
   | Pw f es => HPw f es (go es)
   | Loc r f e => HLoc r f e (expr_ind2 e)
+  | LocS s f e => HLocS s f e (expr_ind2 e)
   | Glob f es => HGlob f es (go es)
   | Select a m b => HSelect a m b (expr_ind2 a) (expr_ind2 m) (expr_ind2 b)
   | MConv k a m => HMConv k a m (expr_ind2 a) (expr_ind2 m)
@@ -42,202 +47,298 @@ Lemma dist_zero p q : dist p q <= 0 -> q = p.
 Proof. unfold dist. destruct p, q; cbn [fst snd]. intros H. f_equal; lia. Qed.
 Lemma dist_tri p q s : dist p s <= dist p q + dist q s.
 Proof. unfold dist. lia. Qed.
-
-(* ------------------------------------------------------------ radii *)
-Definition rsub (a b : rad) : Prop :=
-  match a with None => True | Some x => match b with Some y => (x <= y)%nat | None => False end end.
-Lemma rmax_l a b : rsub a (rmax a b).
-Proof. destruct a, b; cbn; auto; lia. Qed.
-Lemma rmax_r a b : rsub b (rmax a b).
-Proof. destruct a, b; cbn; auto; lia. Qed.
-Lemma rsub_trans a b c : rsub a b -> rsub b c -> rsub a c.
-Proof. destruct a, b, c; cbn; auto; try lia; tauto. Qed.
-Lemma rsub_refl a : rsub a a.
-Proof. destruct a; cbn; auto. Qed.
-
 Lemma px_eq_dec_aux (q p : px) : q = p \/ q <> p.
 Proof. destruct q as [a b], p as [c d]. destruct (Z.eq_dec a c), (Z.eq_dec b d); subst; auto; right; intros H; inversion H; auto. Qed.
-
-Section Sound.
-Variable I : interp.
-Variable mask : px -> bool.
-Notation image := (px -> V I).
-Notation ev := (eval I mask).
-
-Definition agree (a b : image) : Prop := forall q, mask q = true -> a q = b q.
-Definition near (r : rad) (a b : image) (p : px) : Prop :=
-  match r with None => True | Some k => forall q, dist p q <= Z.of_nat k -> a q = b q end.
-(* the semantic judgement behind a radius *)
-Definition dep (r : rad) (e : expr) : Prop :=
-  forall a b, agree a b -> forall p, near r a b p -> ev e a p = ev e b p.
-
-Lemma near_weaken r r' a b p : rsub r r' -> near r' a b p -> near r a b p.
-Proof.
-  destruct r as [x|]; cbn; auto. destruct r' as [y|]; cbn; [|tauto].
-  intros L H q Hq. apply H. lia.
-Qed.
-Lemma near_shift x r a b p q : near (radd x r) a b p -> dist p q <= Z.of_nat r -> near x a b q.
-Proof.
-  destruct x as [k|]; cbn; auto. intros H Hq s Hs. apply H.
-  pose proof (dist_tri p q s). lia.
-Qed.
-Lemma dep_weaken r r' e : dep r e -> rsub r r' -> dep r' e.
-Proof. intros H L a b Hab p Hp. apply H; auto. eapply near_weaken; eauto. Qed.
-
-Lemma guar_sound m : forall g pu, guar m = Some (g, pu) -> forall a p, truthy I (ev m a p) = true ->
-  forall q, dist p q <= Z.of_nat g -> (pu = true -> q <> p) -> mask q = true.
-Proof.
-  induction m; cbn [guar]; intros g pu Hg; try discriminate.
-  - (* MaskE *) inversion Hg; subst. intros a p Hp q Hq _. cbn [eval] in Hp. rewrite truthy_mask in Hp.
-    apply dist_zero in Hq. subst; auto.
-  - (* Erode *) destruct (guar m) as [[g0 [|]]|] eqn:E; try discriminate. inversion Hg; subst.
-    intros a p Hp q Hq _. cbn [eval] in Hp.
-    set (qi := (fst p + Z.max (- Z.of_nat r) (Z.min (Z.of_nat r) (fst q - fst p)),
-                snd p + Z.max (- Z.of_nat r) (Z.min (Z.of_nat r) (snd q - snd p)))).
-    assert (D1 : dist p qi <= Z.of_nat r) by (unfold dist, qi in *; cbn [fst snd]; lia).
-    assert (D2 : dist qi q <= Z.of_nat g0) by (unfold dist, qi in *; cbn [fst snd] in *; lia).
-    eapply (IHm g0 false eq_refl a qi); [|exact D2|discriminate].
-    eapply erode_guarantee; eauto.
-  - (* ErodeP *) destruct (guar m) as [[[|g0] [|]]|] eqn:E; try discriminate. inversion Hg; subst.
-    intros a p Hp q Hq Hne. cbn [eval] in Hp.
-    eapply (IHm 0%nat false eq_refl a q); [|rewrite dist_self; cbn; lia|discriminate].
-    eapply erodep_guarantee; eauto.
-  - (* Select m1 m2 FalseC *)
-    destruct m3; try discriminate.
-    intros a p Hp q Hq Hne. cbn [eval] in Hp.
-    destruct (truthy I (ev m2 a p)) eqn:T2; [|rewrite truthy_false in Hp; discriminate].
-    destruct (guar m2) as [[g2 p2]|] eqn:G2; destruct (guar m1) as [[g1 p1]|] eqn:G1;
-      cbn [gjoin] in Hg; try discriminate.
-    + assert (g = Nat.max g2 g1 /\ pu = p2 && p1) as [-> ->] by (inversion Hg; auto). clear Hg.
-      destruct (px_eq_dec_aux q p) as [Eq|Nq].
-      * subst q. destruct p2.
-        -- destruct p1; cbn [andb] in Hne; [exfalso; apply Hne; auto|].
-           eapply (IHm1 g1 false eq_refl a p Hp p); [rewrite dist_self; lia|discriminate].
-        -- eapply (IHm2 g2 false eq_refl a p T2 p); [rewrite dist_self; lia|discriminate].
-      * destruct (Nat.le_gt_cases g1 g2) as [L|L].
-        -- eapply (IHm2 g2 p2 eq_refl a p T2 q); [lia|auto].
-        -- eapply (IHm1 g1 p1 eq_refl a p Hp q); [lia|auto].
-    + assert (g = g2 /\ pu = p2) as [-> ->] by (inversion Hg; auto).
-      eapply (IHm2 g2 p2 eq_refl a p T2 q); auto.
-    + assert (g = g1 /\ pu = p1) as [-> ->] by (inversion Hg; auto).
-      eapply (IHm1 g1 p1 eq_refl a p Hp q); auto.
-Qed.
 
 Lemma Forall2_map_same {A B} (R : B -> B -> Prop) (f g : A -> B) l :
   (forall x, In x l -> R (f x) (g x)) -> Forall2 R (map f l) (map g l).
 Proof. induction l; cbn; intros H; constructor; auto. Qed.
 
-Lemma pw_fold es : forall R,
-  fold_right (fun e' acc => match rb e', acc with Some a, Some b => Some (rmax a b) | _, _ => None end)
-             (Some None) es = Some R ->
-  forall e, In e es -> exists x, rb e = Some x /\ rsub x R.
+Section Sound.
+Variable I : interp.
+Variable mask : px -> bool.
+Notation image := (px -> V I).
+
+Definition agree (a b : image) : Prop := forall q, mask q = true -> a q = b q.
+(* the semantic reading of a dependence: "the two images also agree there" *)
+Definition near (r : rad) (a b : image) (p : px) : Prop :=
+  match r with
+  | None => True
+  | Some (R k) => forall q, dist p q <= Z.of_nat k -> a q = b q
+  | Some (S s) => a p = b p /\ forall d, sset I s d = true -> a (padd p d) = b (padd p d)
+  end.
+(* the semantic reading of a guarantee at a pixel where the selector is truthy *)
+Definition gsem (g : ginfo) (p : px) : Prop :=
+  match g with
+  | GR g pu => forall q, dist p q <= Z.of_nat g -> (pu = true -> q <> p) -> mask q = true
+  | GS s pu => (pu = false -> mask p = true) /\
+               forall d, sset I s d = true -> padd p d <> p -> mask (padd p d) = true
+  end.
+Definition gsemo (o : option ginfo) (p : px) : Prop := match o with Some g => gsem g p | None => True end.
+
+Lemma near_R0 a b p : near (Some (R 0%nat)) a b p <-> a p = b p.
 Proof.
-  induction es as [|e0 es IH]; cbn [fold_right]; intros R H e Hin; [destruct Hin|].
-  destruct (rb e0) as [x0|] eqn:E0; [|discriminate].
-  destruct (fold_right _ _ es) as [R0|] eqn:EF; [|discriminate]. inversion H; subst; clear H.
-  destruct Hin as [->|Hin].
-  - exists x0; split; auto. apply rmax_l.
-  - destruct (IH R0 eq_refl e Hin) as [x [Hx Sx]]. exists x; split; auto.
-    eapply rsub_trans; [exact Sx|apply rmax_r].
+  cbn. split.
+  - intros H. apply H. rewrite dist_self. lia.
+  - intros H q Hq. apply dist_zero in Hq. subst; auto.
 Qed.
 
-Theorem rb_sound e : forall r, rb e = Some r -> dep r e.
+Lemma rmax_sound x y z a b p : rmax x y = Some z -> near z a b p -> near x a b p /\ near y a b p.
 Proof.
-  induction e as [| | | c | r e IHe | r e IHe | f es IHes | r f e IHe | f es IHes | e1 e2 e3 IHe1 IHe2 IHe3 | k e1 e2 IHe1 IHe2] using expr_ind2; cbn [rb]; intros rr H.
-  - (* Img *) inversion H; subst. intros a b Hab p Hp. cbn. apply Hp. rewrite dist_self; lia.
-  - inversion H; subst. intros a b Hab p Hp. reflexivity.
-  - inversion H; subst. intros a b Hab p Hp. reflexivity.
-  - inversion H; subst. intros a b Hab p Hp. reflexivity.
-  - (* Erode *) destruct (rb e) as [x|] eqn:E; inversion H; subst. intros a b Hab p Hp; cbn [eval].
-    apply erode_local. intros q Hq. apply (IHe _ eq_refl a b Hab q). eapply near_shift; eauto.
-  - (* ErodeP *) destruct (rb e) as [x|] eqn:E; inversion H; subst. intros a b Hab p Hp; cbn [eval].
-    apply erodep_local. intros q Hq. apply (IHe _ eq_refl a b Hab q). eapply near_shift; eauto.
-  - (* Pw *) intros a b Hab p Hp. cbn [eval]. f_equal. apply map_ext_in. intros e He.
+  destruct x as [[kx|sx]|], y as [[ky|sy]|]; cbn [rmax]; intros E N.
+  - inversion E; subst. split; intros q Hq; apply N; lia.
+  - destruct kx; inversion E; subst. split; [apply near_R0; apply N|exact N].
+  - inversion E; subst. split; [exact N|exact Logic.I].
+  - destruct ky; inversion E; subst. split; [exact N|apply near_R0; apply N].
+  - destruct (Nat.eqb sx sy) eqn:Q; inversion E; subst. apply Nat.eqb_eq in Q. subst. auto.
+  - inversion E; subst. split; [exact N|exact Logic.I].
+  - inversion E; subst. split; [exact Logic.I|exact N].
+  - inversion E; subst. split; [exact Logic.I|exact N].
+  - inversion E; subst. split; exact Logic.I.
+Qed.
+
+Lemma radd_sound x r z a b p q : radd x r = Some z -> near z a b p -> dist p q <= Z.of_nat r -> near x a b q.
+Proof.
+  destruct x as [[k|s]|]; cbn [radd]; intros E N Hq; inversion E; subst; cbn; auto.
+  intros t Ht. apply N. pose proof (dist_tri p q t). lia.
+Qed.
+
+Lemma rstruct_sound x s z a b p : rstruct x s = Some z -> near z a b p ->
+  near x a b p /\ forall d, sset I s d = true -> near x a b (padd p d).
+Proof.
+  destruct x as [[[|k]|t]|]; cbn [rstruct]; intros E N; inversion E; subst.
+  - destruct N as [N0 N1]. split; [apply near_R0; auto|]. intros d Hd. apply near_R0. auto.
+  - split; [exact Logic.I|intros; exact Logic.I].
+Qed.
+
+Lemma gjoin_sound ga gb p : gsemo ga p -> gsemo gb p -> gsemo (gjoin ga gb) p.
+Proof.
+  destruct ga as [[g1 p1|s1 p1]|], gb as [[g2 p2|s2 p2]|]; cbn [gjoin gsemo gsem]; intros A B; auto.
+  - intros q Hq Hne. destruct (px_eq_dec_aux q p) as [->|Nq].
+    + destruct p1.
+      * destruct p2; [exfalso; apply Hne; auto|]. apply B; [rewrite dist_self; lia|discriminate].
+      * apply A; [rewrite dist_self; lia|discriminate].
+    + destruct (Nat.le_gt_cases g1 g2); [apply B|apply A]; auto; lia.
+  - destruct B as [B0 B1]. split; auto. intros E. destruct p2; [|auto].
+    destruct p1; [discriminate|]. apply A; [rewrite dist_self; lia|discriminate].
+  - destruct A as [A0 A1]. split; auto. intros E. destruct p1; [|auto].
+    destruct p2; [discriminate|]. apply B; [rewrite dist_self; lia|discriminate].
+  - destruct A as [A0 A1], B as [B0 B1]. split; auto. intros E. destruct p1; [|auto]. destruct p2; [discriminate|auto].
+Qed.
+
+Lemma discount_sound x g a b p : agree a b -> gsemo g p -> near (discount x g) a b p -> near x a b p.
+Proof.
+  intros Hab G N. destruct x as [[k|s]|]; [| |exact Logic.I].
+  - destruct g as [[gg pu|t pu]|]; cbn [discount] in N.
+    + destruct (Nat.leb k gg) eqn:L; [|exact N]. apply Nat.leb_le in L. cbn [gsemo gsem] in G.
+      intros q Hq. destruct (px_eq_dec_aux q p) as [->|Nq].
+      * destruct pu; [apply near_R0 in N; auto|]. apply Hab. apply G; [rewrite dist_self; lia|discriminate].
+      * apply Hab. apply G; [lia|auto].
+    + destruct k; [|exact N]. destruct pu; [exact N|]. apply near_R0. apply Hab. apply G. reflexivity.
+    + exact N.
+  - destruct g as [[gg pu|t pu]|]; cbn [discount] in N; try exact N.
+    destruct (Nat.eqb s t) eqn:Q; [|exact N]. apply Nat.eqb_eq in Q. subst t. destruct G as [G0 G1]. split.
+    + destruct pu; [apply near_R0 in N; auto|]. apply Hab. auto.
+    + intros d Hd. destruct (px_eq_dec_aux (padd p d) p) as [E|Ne].
+      * rewrite E. destruct pu; [apply near_R0 in N; auto|]. apply Hab. auto.
+      * apply Hab. auto.
+Qed.
+
+(* ------------------------------------------------------------ environments of shared definitions *)
+Section Env.
+Variables a b : image.
+Hypothesis Hab : agree a b.
+Notation dflt := (fun _ : px => falsev I).
+
+(* every definition k satisfies what the checker recorded about it *)
+Definition Inv (G : cenv) (ra rb' : list image) : Prop :=
+  length ra = length G /\ length rb' = length G /\
+  forall k r g, nth_error G k = Some (r, g) ->
+    (forall p, near r a b p -> nth k ra dflt p = nth k rb' dflt p) /\
+    (forall p, truthy I (nth k ra dflt p) = true -> gsemo g p).
+
+Variable G : cenv.
+Variables ra rb' : list image.
+Hypothesis HInv : Inv G ra rb'.
+Notation eva := (eval I mask ra).
+Notation evb := (eval I mask rb').
+
+Lemma guar_sound m : forall gi, guar G m = Some gi -> forall p, truthy I (eva m a p) = true -> gsem gi p.
+Proof.
+  induction m; cbn [guar]; intros gi Hg; try discriminate.
+  - (* MaskE *) inversion Hg; subst. intros p Hp q Hq _. cbn [eval] in Hp. rewrite truthy_mask in Hp.
+    apply dist_zero in Hq. subst; auto.
+  - (* Ref *) destruct (nth_error G k) as [[r g]|] eqn:E; [|discriminate]. subst g.
+    intros p Hp. cbn [eval] in Hp. destruct HInv as [_ [_ H]]. apply (proj2 (H k r (Some gi) E) p Hp).
+  - (* Erode *) destruct (guar G m) as [[g0 [|]|]|] eqn:E; try discriminate. inversion Hg; subst.
+    intros p Hp q Hq _. cbn [eval] in Hp.
+    set (qi := (fst p + Z.max (- Z.of_nat r) (Z.min (Z.of_nat r) (fst q - fst p)),
+                snd p + Z.max (- Z.of_nat r) (Z.min (Z.of_nat r) (snd q - snd p)))).
+    assert (D1 : dist p qi <= Z.of_nat r) by (unfold dist, qi in *; cbn [fst snd]; lia).
+    assert (D2 : dist qi q <= Z.of_nat g0) by (unfold dist, qi in *; cbn [fst snd] in *; lia).
+    apply (IHm (GR g0 false) eq_refl qi); [|exact D2|discriminate].
+    eapply erode_guarantee; eauto.
+  - (* ErodeP *) destruct (guar G m) as [[[|g0] [|]|]|] eqn:E; try discriminate. inversion Hg; subst.
+    intros p Hp q Hq Hne. cbn [eval] in Hp.
+    apply (IHm (GR 0%nat false) eq_refl q); [|rewrite dist_self; cbn; lia|discriminate].
+    eapply erodep_guarantee; eauto.
+  - (* ErodeS *) destruct (guar G m) as [[[|g0] [|]|]|] eqn:E; try discriminate. inversion Hg; subst.
+    intros p Hp. cbn [eval] in Hp. split; [discriminate|]. intros d Hd Hne.
+    apply (IHm (GR 0%nat false) eq_refl (padd p d)); [|rewrite dist_self; cbn; lia|discriminate].
+    eapply erodes_guarantee; eauto.
+  - (* Select m1 m2 FalseC *)
+    destruct m3; try discriminate.
+    intros p Hp. cbn [eval] in Hp.
+    destruct (truthy I (eva m2 a p)) eqn:T2; [|rewrite truthy_false in Hp; discriminate].
+    assert (J : gsemo (gjoin (guar G m2) (guar G m1)) p).
+    { apply gjoin_sound.
+      - destruct (guar G m2) as [g2|]; cbn; auto.
+      - destruct (guar G m1) as [g1|]; cbn; auto. }
+    rewrite Hg in J. exact J.
+Qed.
+
+Lemma pw_fold es : forall Rr,
+  fold_right (fun e' acc => bind2 (rb G e') acc) (Some None) es = Some Rr ->
+  forall e, In e es -> exists x, rb G e = Some x /\ forall p, near Rr a b p -> near x a b p.
+Proof.
+  induction es as [|e0 es IH]; cbn [fold_right]; intros Rr H e Hin; [destruct Hin|].
+  destruct (rb G e0) as [x0|] eqn:E0; [|discriminate].
+  destruct (fold_right _ _ es) as [R0|] eqn:EF; [|discriminate]. cbn [bind2] in H.
+  destruct Hin as [->|Hin].
+  - exists x0; split; auto. intros p N. apply (proj1 (rmax_sound _ _ _ _ _ _ H N)).
+  - destruct (IH R0 eq_refl e Hin) as [x [Hx Sx]]. exists x; split; auto.
+    intros p N. apply Sx. apply (proj2 (rmax_sound _ _ _ _ _ _ H N)).
+Qed.
+
+Theorem rb_sound e : forall r, rb G e = Some r -> forall p, near r a b p -> eva e a p = evb e b p.
+Proof.
+  induction e as [| | | c | k | r e IHe | r e IHe | s e IHe | f es IHes | r f e IHe | s f e IHe | f es IHes
+                 | e1 e2 e3 IHe1 IHe2 IHe3 | k e1 e2 IHe1 IHe2] using expr_ind2; cbn [rb]; intros rr H p Hp.
+  - (* Img *) inversion H; subst. cbn [eval]. apply near_R0 in Hp. exact Hp.
+  - reflexivity.
+  - reflexivity.
+  - reflexivity.
+  - (* Ref *) destruct (nth_error G k) as [[r g]|] eqn:E; [|discriminate]. inversion H; subst. cbn [eval].
+    destruct HInv as [_ [_ HI]]. apply (proj1 (HI k rr g E) p Hp).
+  - (* Erode *) destruct (rb G e) as [x|] eqn:E; [|discriminate]. cbn [eval].
+    apply erode_local. intros q Hq. apply (IHe _ eq_refl q). eapply radd_sound; eauto.
+  - (* ErodeP *) destruct (rb G e) as [x|] eqn:E; [|discriminate]. cbn [eval].
+    apply erodep_local. intros q Hq. apply (IHe _ eq_refl q). eapply radd_sound; eauto.
+  - (* ErodeS *) destruct (rb G e) as [x|] eqn:E; [|discriminate]. cbn [eval].
+    destruct (rstruct_sound _ _ _ _ _ _ H Hp) as [N0 N1].
+    apply erodes_local; [apply (IHe _ eq_refl p N0)|]. intros d Hd. apply (IHe _ eq_refl _ (N1 d Hd)).
+  - (* Pw *) cbn [eval]. f_equal. apply map_ext_in. intros e He.
     destruct (pw_fold es rr H e He) as [x [Hx Sx]].
-    rewrite Forall_forall in IHes. apply (IHes e He x Hx a b Hab p). eapply near_weaken; eauto.
-  - (* Loc *) destruct (rb e) as [x|] eqn:E; inversion H; subst. intros a b Hab p Hp; cbn [eval].
-    apply loc_local. intros q Hq. apply (IHe _ eq_refl a b Hab q). eapply near_shift; eauto.
-  - (* Glob *) destruct (forallb _ es) eqn:F; inversion H; subst. intros a b Hab p Hp; cbn [eval].
+    rewrite Forall_forall in IHes. apply (IHes e He x Hx p). auto.
+  - (* Loc *) destruct (rb G e) as [x|] eqn:E; [|discriminate]. cbn [eval].
+    apply loc_local. intros q Hq. apply (IHe _ eq_refl q). eapply radd_sound; eauto.
+  - (* LocS *) destruct (rb G e) as [x|] eqn:E; [|discriminate]. cbn [eval].
+    destruct (rstruct_sound _ _ _ _ _ _ H Hp) as [N0 N1].
+    apply locs_local; [apply (IHe _ eq_refl p N0)|]. intros d Hd. apply (IHe _ eq_refl _ (N1 d Hd)).
+  - (* Glob *) destruct (forallb _ es) eqn:F; inversion H; subst. cbn [eval].
     apply glob_ext. apply Forall2_map_same. intros e He q.
     rewrite forallb_forall in F. specialize (F e He). unfold is_clean in F.
-    destruct (rb e) as [[k|]|] eqn:E; try discriminate F.
-    rewrite Forall_forall in IHes. apply (IHes e He None E a b Hab q). exact Logic.I.
+    destruct (rb G e) as [[d|]|] eqn:E; try discriminate F.
+    rewrite Forall_forall in IHes. apply (IHes e He None E q). exact Logic.I.
   - (* Select *)
-    destruct (rb e1) as [x|] eqn:E1; [|cbn in H; discriminate H]. destruct (rb e2) as [y|] eqn:E2; [|cbn in H; discriminate H].
-    destruct (rb e3) as [z|] eqn:E3; [|cbn in H; discriminate H]. inversion H; subst; clear H.
-    set (x' := match guar e2 with
-               | Some (g, punct) =>
-                   if rle x g then (if punct then (match x with None => None | Some _ => Some 0%nat end) else None)
-                   else x
-               | None => x end).
-    set (R := rmax x' (rmax y z)).
-    intros a b Hab p Hp. cbn [eval].
-    assert (Sy : rsub y R) by (eapply rsub_trans; [apply rmax_l | apply rmax_r]).
-    assert (Sz : rsub z R) by (eapply rsub_trans; [apply rmax_r | apply rmax_r]).
-    assert (Sx' : rsub x' R) by apply rmax_l.
-    assert (Hm : ev e2 a p = ev e2 b p) by (apply (dep_weaken y R e2 (IHe2 _ eq_refl) Sy a b Hab p Hp)).
-    rewrite <- Hm. destruct (truthy I (ev e2 a p)) eqn:Tm.
-    + unfold x' in Sx'. destruct (guar e2) as [[g pu]|] eqn:G.
-      * destruct (rle x g) eqn:RL.
-        -- apply (IHe1 _ eq_refl a b Hab p). destruct x as [k|]; [|exact Logic.I].
-           cbn [rle] in RL. apply Nat.leb_le in RL.
-           intros q Hq. destruct (px_eq_dec_aux q p) as [Eq|Nq].
-           ++ subst q. destruct pu.
-              ** (* punctured: the centre comes from the resulting radius Some 0 *)
-                 assert (N0 : near (Some 0%nat) a b p) by (eapply near_weaken; [exact Sx'|exact Hp]).
-                 apply N0. rewrite dist_self; cbn; lia.
-              ** apply Hab. eapply (guar_sound e2 g false G a p Tm p); [rewrite dist_self; lia|discriminate].
-           ++ apply Hab. eapply (guar_sound e2 g pu G a p Tm q); [lia|auto].
-        -- apply (dep_weaken x R e1 (IHe1 _ eq_refl) Sx' a b Hab p Hp).
-      * apply (dep_weaken x R e1 (IHe1 _ eq_refl) Sx' a b Hab p Hp).
-    + apply (dep_weaken z R e3 (IHe3 _ eq_refl) Sz a b Hab p Hp).
+    destruct (rb G e1) as [x|] eqn:E1; [|discriminate].
+    destruct (rb G e2) as [y|] eqn:E2; [|cbn in H; discriminate H].
+    destruct (rb G e3) as [z|] eqn:E3; [|cbn in H; discriminate H].
+    cbn [bind2] in H. destruct (rmax y z) as [yz|] eqn:Eyz; [|discriminate H].
+    destruct (rmax_sound _ _ _ _ _ _ H Hp) as [Nx' Nyz].
+    destruct (rmax_sound _ _ _ _ _ _ Eyz Nyz) as [Ny Nz].
+    cbn [eval].
+    assert (Hm : eva e2 a p = evb e2 b p) by (apply (IHe2 _ eq_refl p Ny)).
+    rewrite <- Hm. destruct (truthy I (eva e2 a p)) eqn:Tm.
+    + apply (IHe1 _ eq_refl p). apply (discount_sound x (guar G e2) a b p Hab); auto.
+      destruct (guar G e2) as [gi|] eqn:Gm; cbn; auto. apply (guar_sound e2 gi Gm p Tm).
+    + apply (IHe3 _ eq_refl p Nz).
   - (* MConv *)
-    destruct (rb e1) as [x|] eqn:E1; [|cbn in H; discriminate H].
-    destruct (rb e2) as [[k2|]|] eqn:E2; try (cbn in H; discriminate H).
-    destruct (guar e2) as [[g [|]]|] eqn:G; try (cbn in H; discriminate H).
-    destruct (rle x g) eqn:RL; inversion H; subst; clear H.
-    intros a b Hab p _. cbn [eval].
-    assert (Hm : forall q, ev e2 a q = ev e2 b q) by (intros q; apply (IHe2 _ eq_refl a b Hab q); exact Logic.I).
-    rewrite <- (Hm p). destruct (truthy I (ev e2 a p)) eqn:Tp; [|reflexivity].
+    destruct (rb G e1) as [x|] eqn:E1; [|discriminate].
+    assert (X : exists g, rb G e2 = Some None /\ guar G e2 = Some (GR g false) /\
+                          (x = None \/ exists k, x = Some (R k) /\ (k <= g)%nat)).
+    { destruct x as [[kx|s]|]; destruct (rb G e2) as [[d|]|]; try discriminate H;
+        destruct (guar G e2) as [[g [|]|s' pu]|]; try discriminate H.
+      - destruct (Nat.leb kx g) eqn:L; [|discriminate H]. apply Nat.leb_le in L. exists g. repeat split; auto.
+        right. exists kx. auto.
+      - exists g. repeat split; auto. }
+    destruct X as [g [E2 [Gm Hx]]]. cbn [eval].
+    assert (Hm : forall q, eva e2 a q = evb e2 b q) by (intros q; apply (IHe2 _ E2 q); exact Logic.I).
+    rewrite <- (Hm p). destruct (truthy I (eva e2 a p)) eqn:Tp; [|reflexivity].
     f_equal. unfold mconv_terms. apply flat_map_ext. intros d.
-    rewrite <- (Hm (padd p d)). destruct (truthy I (ev e2 a (padd p d))) eqn:Td; [|reflexivity].
-    do 2 f_equal. apply (IHe1 _ eq_refl a b Hab (padd p d)).
-    destruct x as [kx|]; [|exact Logic.I]. cbn [rle] in RL. apply Nat.leb_le in RL.
-    intros q Hq. apply Hab. eapply (guar_sound e2 g false G a (padd p d) Td q); [lia|discriminate].
+    rewrite <- (Hm (padd p d)). destruct (truthy I (eva e2 a (padd p d))) eqn:Td; [|reflexivity].
+    do 2 f_equal. apply (IHe1 _ eq_refl (padd p d)).
+    destruct Hx as [->|[kx [-> L]]]; [exact Logic.I|].
+    intros q Hq. apply Hab. apply (guar_sound e2 _ Gm (padd p d) Td q); [lia|discriminate].
 Qed.
+End Env.
 
-(* the property: a program accepted at radius <= 0 is non-interfering inside the mask *)
-Theorem maskflow_sound e r : rb e = Some r -> rle r 0 = true ->
-  forall a b, agree a b -> forall p, mask p = true -> ev e a p = ev e b p.
+(* ------------------------------------------------------------ programs *)
+Lemma Inv_nil a b : Inv a b [] [] [].
+Proof. split; [reflexivity|split; [reflexivity|]]. intros k r g E. destruct k; discriminate. Qed.
+
+Lemma Inv_snoc a b (Hab : agree a b) G ra rb' d r :
+  Inv a b G ra rb' -> rb G d = Some r ->
+  Inv a b (G ++ [(r, guar G d)]) (ra ++ [eval I mask ra d a]) (rb' ++ [eval I mask rb' d b]).
 Proof.
-  intros H L a b Hab p Hp. apply (rb_sound e r H a b Hab p).
-  destruct r as [k|]; [|exact Logic.I]. cbn [rle] in L. apply Nat.leb_le in L.
-  intros q Hq. assert (q = p) by (apply dist_zero; lia). subst; auto.
+  intros HI Hr. pose proof HI as [La [Lb HK]]. split; [|split].
+  - rewrite !app_length. cbn. lia.
+  - rewrite !app_length. cbn. lia.
+  - intros k r0 g0 E. destruct (Nat.lt_ge_cases k (length G)) as [Lt|Ge].
+    + rewrite nth_error_app1 in E by auto. rewrite !app_nth1 by lia. apply (HK k r0 g0 E).
+    + rewrite nth_error_app2 in E by auto. destruct (k - length G)%nat as [|n] eqn:Ek; [|destruct n; discriminate].
+      cbn in E. inversion E; subst r0 g0. assert (k = length G) by lia. subst k.
+      rewrite (app_nth2 ra) by lia. rewrite (app_nth2 rb') by lia. rewrite La, Lb, Nat.sub_diag. cbn [nth]. split.
+      * intros p N. apply (rb_sound a b Hab G ra rb' HI d r Hr p N).
+      * intros p T. destruct (guar G d) as [gi|] eqn:Gd; cbn; auto. apply (guar_sound a b G ra rb' HI d gi Gd p T).
 Qed.
 
-Theorem restore_outside e1 (img : image) p : mask p = false -> ev (Select e1 MaskE Img) img p = img p.
-Proof. intros Hp. cbn [eval]. rewrite truthy_mask, Hp. reflexivity. Qed.
+Theorem rbp_sound a b (Hab : agree a b) defs main : forall G ra rb' r,
+  Inv a b G ra rb' -> rbp G defs main = Some r ->
+  forall p, near r a b p -> evalp I mask ra defs main a p = evalp I mask rb' defs main b p.
+Proof.
+  induction defs as [|d ds IH]; cbn [rbp evalp]; intros G ra rb' r HI H p N.
+  - apply (rb_sound a b Hab G ra rb' HI main r H p N).
+  - destruct (rb G d) as [rd|] eqn:Ed; [|discriminate].
+    apply (IH _ _ _ r (Inv_snoc a b Hab G ra rb' d rd HI Ed) H p N).
+Qed.
+
+Lemma restores_main_sound e : restores_main e = true ->
+  forall rho (img : image) p, mask p = false -> eval I mask rho e img p = img p.
+Proof.
+  induction e; cbn [restores_main]; intros H rho img p Hp; try discriminate.
+  - reflexivity.
+  - apply orb_true_iff in H as [H|H].
+    + destruct e2; try discriminate. destruct e3; try discriminate. cbn [eval]. rewrite truthy_mask, Hp. reflexivity.
+    + apply andb_true_iff in H as [H1 H3]. cbn [eval].
+      destruct (truthy I (eval I mask rho e2 img p)); [apply IHe1|apply IHe3]; auto.
+Qed.
+
+Lemma evalp_restores defs main : restores_main main = true ->
+  forall rho (img : image) p, mask p = false -> evalp I mask rho defs main img p = img p.
+Proof.
+  intros H. induction defs as [|d ds IH]; cbn [evalp]; intros rho img p Hp.
+  - apply restores_main_sound; auto.
+  - apply IH; auto.
+Qed.
 End Sound.
 
 (* ------------------------------------------------------------ the checkers are sound *)
-Theorem accepts_sound e : accepts e = true -> noninterfering e.
+Theorem accepts_sound P : accepts P = true -> noninterfering P.
 Proof.
-  unfold accepts, noninterfering. intros H I mask a b Hab p Hp.
-  destruct (rb e) as [r|] eqn:E; [|discriminate].
-  apply (maskflow_sound I mask e r E H a b Hab p Hp).
+  unfold accepts, noninterfering, run. intros H I mask a b Hab p Hp.
+  destruct (rbp [] (fst P) (snd P)) as [r|] eqn:E; [|discriminate].
+  apply (rbp_sound I mask a b Hab (fst P) (snd P) [] [] [] r (Inv_nil I mask a b) E p).
+  destruct r as [[[|k]|s]|]; try discriminate H; [|exact Logic.I].
+  apply near_R0. apply Hab; auto.
 Qed.
 
-Theorem restores_outside_sound e : restores_outside e = true -> restoring e.
+Theorem restores_outside_sound P : restores_outside P = true -> restoring P.
 Proof.
-  unfold restoring. induction e; cbn [restores_outside]; intros H I mask img p Hp; try discriminate.
-  - reflexivity.
-  - apply orb_true_iff in H as [H|H].
-    + destruct e2; try discriminate. destruct e3; try discriminate. apply restore_outside; auto.
-    + apply andb_true_iff in H as [H1 H3]. cbn [eval].
-      destruct (truthy I (eval I mask e2 img p)); [apply IHe1|apply IHe3]; auto.
+  unfold restores_outside, restoring, run. intros H I mask img p Hp. apply evalp_restores; auto.
 Qed.
 
-(* every term of a generated list: one rejected term breaks the premise *)
+(* every program of a generated list: one rejected program breaks the premise *)
 Theorem all_accepted_noninterfering l : forallb accepts l = true -> Forall noninterfering l.
 Proof. intros H. apply Forall_forall. intros e He. apply accepts_sound. rewrite forallb_forall in H. auto. Qed.
 Theorem all_restoring l : forallb restores_outside l = true -> Forall restoring l.
@@ -246,9 +347,9 @@ Proof. intros H. apply Forall_forall. intros e He. apply restores_outside_sound.
 (* the masked convolution kernel of _filter.pyx reads no pixel outside the mask *)
 Theorem masked_conv_clean k : forall (I : interp) (mask : px -> bool) (a b : px -> V I),
   (forall q, mask q = true -> a q = b q) ->
-  forall p, eval I mask (MConv k Img MaskE) a p = eval I mask (MConv k Img MaskE) b p.
+  forall p, eval I mask [] (MConv k Img MaskE) a p = eval I mask [] (MConv k Img MaskE) b p.
 Proof.
   intros I mask a b Hab p.
-  assert (H : rb (MConv k Img MaskE) = Some None) by reflexivity.
-  apply (rb_sound I mask _ _ H a b Hab p). exact Logic.I.
+  assert (H : rb [] (MConv k Img MaskE) = Some None) by reflexivity.
+  apply (rb_sound I mask a b Hab [] [] [] (Inv_nil I mask a b) _ _ H p). exact Logic.I.
 Qed.
